@@ -357,4 +357,43 @@ Definition resize (s : ui) (w h : Z) : ui :=
   else frame (mkui (u_pages s) (u_hist s) (u_mode s) (u_buffer s) w h (u_tasks s) (u_frames s)).
 
 Definition ui_init (w h : Z) : ui := mkui [] h_init MLoading [] w h [] 0.
+
+(* ---- helpers for the correspondence harness (not used by the theorems) ---- *)
+Definition is_load (t : task) : bool := match t with TLoadUp _ | TLoadDown _ => true | _ => false end.
+
+Fixpoint take_nonload (ts : list task) : option (task * list task) :=
+  match ts with
+  | [] => None
+  | t :: r => if is_load t then match take_nonload r with Some (x, r') => Some (x, t :: r') | None => None end
+              else Some (t, r)
+  end.
+
+(* while the harness holds the load gate closed only the other goroutines can finish *)
+Fixpoint settle_gated (fuel : nat) (s : ui) : ui :=
+  match fuel with
+  | O => s
+  | S f =>
+      match take_nonload (u_tasks s) with
+      | None => s
+      | Some (t, rest) =>
+          settle_gated f (run_task (mkui (u_pages s) (u_hist s) (u_mode s) (u_buffer s) (u_width s) (u_height s) rest (u_frames s)) t)
+      end
+  end.
+
+Fixpoint extent (fuel : nat) (f : feed I) (dir : Z) (k : Z) : Z :=
+  match fuel with
+  | O => k
+  | S g => if f_contains f (k + dir) then extent g f dir (k + dir) else k
+  end.
+
+Definition mode_code (m : mode) : Z :=
+  match m with MLoading => 0 | MNormal => 1 | MCommand => 2 | MSelection => 3 | MOpening => 4 | MProblem => 5 end.
+
+(* what the harness observes after every key *)
+Definition snapshot (s : ui) : Z * text * option nat * option I * (Z * Z) * (bool * bool) * nat * Z :=
+  let p := cur_page s in
+  (mode_code (u_mode s), u_buffer s, cur_pid s, cur_item s,
+   match p with Some p => (extent 2000 (pg_feed p) (-1) 0, extent 2000 (pg_feed p) 1 0) | None => (0, 0) end,
+   match p with Some p => (pg_loading_up p, pg_loading_down p) | None => (false, false) end,
+   u_frames s, u_height s).
 End Ui.
